@@ -315,6 +315,8 @@ class Run:
             out["hung"] = []
             if sc.get("idle", 0):
                 await asyncio.sleep(sc["idle"])
+        if sc.get("post_idle", 0):
+            await asyncio.sleep(sc["post_idle"])
         # tail: after everything is quiet (and the device is back) further sends must all work
         tail = {"n": 0, "ok": 0, "exc": "none", "wrong": 0, "start": round(self.loop.time(), 6)}
         if sc.get("tail_sends", 0):
@@ -450,4 +452,5 @@ def run_scenario(sc):
             "traffic": [[n, v] for n, v in sorted(r.traffic.items())], "out": out, "info": info,
             "opens": getattr(r.gw, "openlog", []), "present_at_end": 1 if r.gw.present else 0,
             "lost_at": round(r.lost_at, 6), "returned_in_time": r.returned_in_time,
+            "reports": r.gw.reports if sc.get("keep_reports") else [],
             "now": round(loop.time(), 6), "iterations": loop.iterations}
